@@ -90,7 +90,8 @@ static void schedule(char kind, const char *opname){
         Point p; p.nenabled = (int) en.size(); p.chosen = c; p.running = cur_en ? 1 : 0; p.kind = kind; points.push_back(p);
     }else c = (en.size() > 1) ? choose((int) en.size(), kind, cur_en ? 1 : 0) : 0;
     int next = en[c], me = self_id; current = next;
-    if (next != me){ sem_post(&th[next]->gate); if (th[me]->st != FINISHED) sem_wait(&th[me]->gate); }
+    // after the hand-off the next thread really runs in parallel with the rest of this function and may append to 'th' (pthread_create): take the pointers first
+    if (next != me){ Th *tn = th[(size_t) next], *tm = th[(size_t) me]; bool finished = (tm->st == FINISHED); sem_post(&tn->gate); if (!finished) sem_wait(&tm->gate); }
 }
 static void *trampoline(void *p){
     Th *t = (Th*) p; self_id = t->id; sem_wait(&t->gate);
